@@ -28,6 +28,9 @@ func init() {
 	register("simplifybig", func(c *ctx) {
 		for it := 0; it < c.pick(12, 80); it++ {
 			n := []int{600, 1025, 2049, 4097, 6000}[c.rng.Intn(5)]
+			if it == 5 { // one very long line per run (a dense trace: a hundred thousand vertices and more)
+				n = []int{100000, 150000, 262144}[c.rng.Intn(3)]
+			}
 			ls := make(orb.LineString, n)
 			x, y := 0.0, 0.0
 			for j := range ls {
@@ -71,10 +74,20 @@ func init() {
 				base("dp", dp)
 				// every input vertex within t of the simplified line (of some piece of it: vertices may repeat, so positions in
 				// the input are not recovered from coordinates - the weaker, still necessary, form is checked)
-				worst := 0.0
+				worst, cur := 0.0, 0
 				for i := range ls {
-					best := planar.DistanceFromSegment(dp[0], dp[minInt(1, len(dp)-1)], ls[i])
-					for k := 1; k+1 < len(dp) && best > t; k++ {
+					// (the piece that covers a vertex is at or just behind the one that covered the vertex before it: those are
+					// tried first, the whole line only when they do not do)
+					best := planar.DistanceFromSegment(dp[cur], dp[minInt(cur+1, len(dp)-1)], ls[i])
+					for k := cur + 1; k+1 < len(dp) && k <= cur+3 && best > t; k++ {
+						if d := planar.DistanceFromSegment(dp[k], dp[k+1], ls[i]); d < best {
+							best = d
+							if d <= t {
+								cur = k
+							}
+						}
+					}
+					for k := 0; k+1 < len(dp) && best > t; k++ {
 						if d := planar.DistanceFromSegment(dp[k], dp[k+1], ls[i]); d < best {
 							best = d
 						}
